@@ -222,6 +222,11 @@ impl ControlFlowGraph {
                     None => return Err(Error::ControlFlowGraphSuccessorNotFound),
                 };
 
+                // A block cannot be merged with itself
+                if successor == block.index() {
+                    continue;
+                }
+
                 // If this is the entry vertex, we will not merge
                 if self
                     .entry()
